@@ -77,7 +77,31 @@ impl C04 {
         let lhs = lib(ctx, "tensor;dagger", "any", &input, || lf.tensor(&lg).dagger());
         let rhs = lib(ctx, "dagger;tensor", "any", &input, || lf.dagger().tensor(&lg.dagger()));
         law(ctx, "dagger-distributes-over-tensor", "pair", lhs, rhs, &input);
-        // lax dagger
+        // lax dagger, on an operand that still carries pending unifications
+        let mut pl = f.to_lax();
+        {
+            let n = pl.w.len();
+            if n > 0 {
+                for _ in 0..r.small(3) {
+                    let a = r.below(n);
+                    let c: Vec<usize> = (0..n).filter(|&i| pl.w[i] == pl.w[a]).collect();
+                    pl.q.push((a, *r.pick(&c)));
+                }
+            }
+        }
+        if !pl.q.is_empty() {
+            ctx.class("lax_dagger_with_pending_unifications");
+        }
+        let lxp = to_lax(&pl);
+        if let Some(d) = lib(ctx, "lax::dagger", "any", &input, || Spider::dagger(&lxp)) {
+            let mut want = pl.clone();
+            std::mem::swap(&mut want.s, &mut want.t);
+            let got = from_lax_raw(&d);
+            ctx.check(got == want, "lax::dagger/swaps-interfaces-only/value/pending", || json!({"input": show_lax(&pl), "observed": show_lax(&got), "expected_exactly": show_lax(&want)}));
+            if let Some(dd) = lib(ctx, "lax::dagger", "any", &input, || Spider::dagger(&d)) {
+                ctx.check(dd == lxp, "lax::dagger/involution/value/pending", || json!({"input": show_lax(&pl)}));
+            }
+        }
         let lxf = to_lax(&f.to_lax());
         if let Some(d) = lib(ctx, "lax::dagger", "any", &input, || Spider::dagger(&lxf)) {
             ctx.count("wf:walked");
@@ -279,6 +303,7 @@ impl Monitor for C04 {
             ("law:half-spider-is-spider-with-identity-leg", 50),
             ("api:lax::spider", 100),
             ("api:lax::dagger", 100),
+            ("class:lax_dagger_with_pending_unifications", 50),
         ]
     }
     fn run_case(&self, idx: u64, r: &mut Rng, ctx: &mut Ctx) {
